@@ -32,6 +32,11 @@ CLAIMS = {
         note="Trusted: Coq kernel/vm_compute; file system model; the visit lists are read from the real code each run. The documented output_path rule is validated on the universe's export_to forms (absent, directory, file, nested, ../).",
         technique="Coq proof over the export state machine + before/after snapshot correspondence on a real directory",
         ref="DESIGN.md section 5 C11, section 10"),
+    "C01": dict(
+        text="Coq: (1) the meaning of the generated TypeScript types as sets of JSON values (Spec/TsSem.v: exact objects, bigint = JSON integer, references unfolded with parameters substituted, intersections in disjunctive normal form) and serde's serialisation of the fragment (Spec/Serde.v) are executable Gallina definitions; (2) theorem C01_library_layer: for library type expressions of ANY nesting depth, arrays of every length, maps with string/char/integer keys, and every value, what serde_json emits is a member of the type TS::name() reports (induction over the type grammar); (3) the derive layer is tied to the theorems of C07/C14 (the declaration body instantiated at the arguments IS the inline form) and is decided on every run by evaluating the Coq membership predicate on the REAL serde_json output of systematically built values of every corpus type (every variant, Some/None, empty/non-empty collections) against the declared types, whose model ASTs are compared with the real decl()/name()/inline() text byte for byte; Spec/Serde.v itself is compared with the real serde_json text on every value.",
+        note="PARTIAL proof: the unbounded theorem covers the library layer only; for derived types (structs/enums x representations x attributes x generics) membership is decided by Coq per generated case (sampling: ~500 values quick, ~5000 thorough), not proved for all definitions. Trusted: Coq kernel/vm_compute; the reading of TypeScript types in Spec/TsSem.v; Spec/Serde.v (pinned against real serde_json each run); the Python JSON-to-Coq converter. Known classes: optional without skip_serializing_if, newtype struct with a skipped field, textual merge (known_findings.json); non-finite floats and user-asserted bindings (`as`, `type`) are outside the generated fragment.",
+        technique="Coq proof (library layer, induction over the type grammar) + membership decided by Coq (vm_compute of memberb) on real serde_json output of a compiled corpus + model/implementation text correspondence + serde model correspondence",
+        ref="DESIGN.md section 5 C01, section 10"),
     "C03": dict(
         text="Coq theorems, for all environments of definitions, attribute combinations, nesting depths and type arguments: every type name that a generated declaration / inline form / flattened form refers to is the identifier of an exportable type handed to the visitor by the generated visit_dependencies() (C03_used_names_are_dependencies, C03_inline_names_are_dependencies, C03_name_refs: induction over the type grammar, case analysis of the derive layer, induction on generator fuel with gen and deps side by side); and for ANY dependency list the import statements generate_imports builds are sound (each imported name is a non-self dependency that is not in the same file, under exactly the specifier import_path computes for its file), name every name in one place only, and are complete up to equal names (C03_imports). With C08 (the specifier resolves to that file) and C11 (export_all writes the file of every visited exportable type). Tied to the code on every run: model dependencies()/export_to_string() vs real byte for byte on the corpus, and every exportable corpus type is exported with export_all_to into a real directory whose every file is read back by an independent reader: used names = imported + declared + parameters, every import resolves to a written file declaring the name, no self-import, no duplicates, no unused import.",
         note="Trusted: Coq kernel/vm_compute; transcription of deps.rs call sites and of generate_imports (pinned by the corpus correspondence); the Python reader of real files (tools/tsmini.py). Partial: `imports nothing it does not use` is NOT proved (it is false: known class inlined_generic_default) — it is decided by the oracle on the real trees only; the composition of the dependency-level and import-level theorems across the dummy renaming of WithoutGenerics is by correspondence. `type = \"..\"` overrides are opaque.",
